@@ -1,4 +1,7 @@
 import RsslVerif.Lemmas.CondChain
+import RsslVerif.Lemmas.CondParse
+import RsslVerif.Lemmas.CondFile
+import RsslVerif.Lemmas.CondMacro
 /-!
 # C11 — conditional compilation selects exactly the branches C semantics select
 
@@ -12,7 +15,7 @@ All statements hold for every tree / line list / expression (no bound on length 
 -/
 namespace RsslVerif.Thm.C11
 open RsslVerif.Gen.CondTables RsslVerif.Model.CondExpr RsslVerif.Model.CondChain
-open RsslVerif.Spec.CPre RsslVerif.Lemmas.CondChain RsslVerif.Lemmas.CondExpr
+open RsslVerif.Spec.CPre RsslVerif.Lemmas.CondChain RsslVerif.Lemmas.CondExpr RsslVerif.Lemmas.CondParse
 
 /-! ## 1. the extracted tables are the specified ones -/
 
@@ -224,6 +227,98 @@ theorem cond_parse_eval_closed (e : Expr) (hc : Closed e) :
     parseCond (print 4 e) = some (evalU64 [] e != 0) := by
   rw [parseCond_print e hc, truthy_eq]
 
+/-! ### 4b. the token level: the parser accepts exactly the grammar, and the parse is the unique tree -/
+
+/-- **Main theorem (token level, completeness + soundness).**  For *every* token sequence `ts` (not only
+    printed trees): the model of `condition_parser::parse` accepts `ts` with truth value `b` iff `ts` is the
+    printing of a canonical syntax tree `e` (explicit parentheses as `.paren` nodes, every operand at the
+    level the C grammar gives it, so `print` adds no parentheses of its own) whose reference value over
+    unsigned 64-bit integers has truth `b`.  `parseTree ts` — the model parser with syntax trees in place of
+    values (`Lemmas.CondParse.sim`: the model parser *is* `parseTree` followed by `evalU64`) — returns that
+    tree. -/
+theorem cond_parse_tokens (ts : List CTok) (b : Bool) :
+    parseCond ts = some b ↔ ∃ e, Canon e ∧ print 4 e = ts ∧ parseTree ts = some e ∧ b = (evalU64 [] e != 0) := by
+  rw [parseCond_parseTree]
+  constructor
+  · intro h
+    cases ht : parseTree ts with
+    | none => simp [ht] at h
+    | some e =>
+      simp only [ht, Option.map_some, Option.some.injEq] at h
+      obtain ⟨h1, h2⟩ := parseTree_spec ts e ht
+      exact ⟨e, h1, h2, rfl, by rw [← h, truthy_eq]⟩
+  · rintro ⟨e, _, _, h3, rfl⟩
+    simp [h3, truthy_eq]
+
+/-- **Unambiguity.**  The tree is unique: two canonical trees with the same printing are equal; two
+    arbitrary `defined`-free trees with the same printing differ only in redundant parentheses (they have
+    the same canonical form, `canon` = make the parentheses `print` adds explicit) and have the same value.
+    Together with `cond_parse_tokens`: the parse of an accepted token sequence is *the* tree whose printing
+    is that sequence, modulo redundant parentheses. -/
+theorem cond_parse_unambiguous :
+    (∀ e₁ e₂, Canon e₁ → Canon e₂ → print 4 e₁ = print 4 e₂ → e₁ = e₂) ∧
+    (∀ e₁ e₂, Closed e₁ → Closed e₂ → print 4 e₁ = print 4 e₂ →
+      canon e₁ = canon e₂ ∧ evalU64 [] e₁ = evalU64 [] e₂) ∧
+    (∀ e, Closed e → Canon (canon e) ∧ print 4 (canon e) = print 4 e ∧ evalU64 [] (canon e) = evalU64 [] e) := by
+  have key : ∀ e₁ e₂, Canon e₁ → Canon e₂ → print 4 e₁ = print 4 e₂ → e₁ = e₂ := by
+    intro e₁ e₂ h1 h2 hp
+    have a := parseTree_print e₁ h1
+    have b := parseTree_print e₂ h2
+    rw [hp, b] at a
+    exact (Option.some.inj a).symm
+  refine ⟨key, ?_, fun e hc => ⟨canon_canon e hc, print_canon e 4, ev_canon e⟩⟩
+  intro e₁ e₂ h1 h2 hp
+  have hc : canon e₁ = canon e₂ :=
+    key _ _ (canon_canon e₁ h1) (canon_canon e₂ h2) (by rw [print_canon, print_canon, hp])
+  refine ⟨hc, ?_⟩
+  have a := ev_canon e₁
+  have b := ev_canon e₂
+  simp only [ev] at a b
+  rw [← a, ← b, hc]
+
+/-- **Ill-formed token sequences are rejected**, well-formed ones accepted: with `Gram` the C grammar of
+    conditions over the supported operators on tokens (`Spec.CPre.Gram`: literals, `true/false`,
+    identifiers, `!`, parentheses, four left-associative binary levels), the model parser accepts `ts`
+    iff `Gram 4 ts`. -/
+theorem cond_rejects_illformed (ts : List CTok) :
+    (¬ Gram 4 ts → parseCond ts = none) ∧ (Gram 4 ts → ∃ b, parseCond ts = some b) := by
+  rw [parseCond_parseTree, gram_iff_accepts]
+  constructor
+  · intro h
+    cases ht : parseTree ts with
+    | none => rfl
+    | some e => exact absurd ⟨e, ht⟩ h
+  · rintro ⟨e, he⟩
+    exact ⟨truthy (ev e), by simp [he]⟩
+
+/-- Non-vacuity: `1 < 2 == ( 3 || 0 ) && ! x` is in the grammar and parses to the expected tree;
+    `1 < = 2` (separate `<` and `=`), `1 ||`, `( 1` and `1 2` are not in the grammar and are rejected. -/
+example :
+    Gram 4 [.LiteralInt 1, .LeftAngleBracket .Whitespace, .LiteralInt 2, .EqualsEquals,
+      .LeftParen, .LiteralInt 3, .VerticalBarVerticalBar, .LiteralInt 0, .RightParen,
+      .AmpersandAmpersand, .ExclamationPoint, .Id "x"] ∧
+    parseTree [.LiteralInt 1, .LeftAngleBracket .Whitespace, .LiteralInt 2, .EqualsEquals,
+      .LeftParen, .LiteralInt 3, .VerticalBarVerticalBar, .LiteralInt 0, .RightParen,
+      .AmpersandAmpersand, .ExclamationPoint, .Id "x"] = some (.bin .land
+      (.bin .eq (.bin (.lt .Whitespace) (.lit 1 false) (.lit 2 false))
+                (.paren (.bin .lor (.lit 3 false) (.lit 0 false))))
+      (.not (.name "x"))) ∧
+    parseCond [.LiteralInt 1, .LeftAngleBracket .Whitespace, .LiteralInt 2, .EqualsEquals,
+      .LeftParen, .LiteralInt 3, .VerticalBarVerticalBar, .LiteralInt 0, .RightParen,
+      .AmpersandAmpersand, .ExclamationPoint, .Id "x"] = some true ∧
+    ¬ Gram 4 [.LiteralInt 1, .LeftAngleBracket .Whitespace, .Equals, .LiteralInt 2] ∧
+    ¬ Gram 4 [.LiteralInt 1, .VerticalBarVerticalBar] ∧
+    ¬ Gram 4 [.LeftParen, .LiteralInt 1] ∧
+    ¬ Gram 4 [.LiteralInt 1, .LiteralInt 2] := by
+  have hp : parseTree [.LiteralInt 1, .LeftAngleBracket .Whitespace, .LiteralInt 2, .EqualsEquals,
+      .LeftParen, .LiteralInt 3, .VerticalBarVerticalBar, .LiteralInt 0, .RightParen,
+      .AmpersandAmpersand, .ExclamationPoint, .Id "x"] = some (.bin .land
+      (.bin .eq (.bin (.lt .Whitespace) (.lit 1 false) (.lit 2 false))
+                (.paren (.bin .lor (.lit 3 false) (.lit 0 false))))
+      (.not (.name "x"))) := by decide
+  exact ⟨(gram_iff_accepts _).2 ⟨_, hp⟩, hp, by decide, not_gram_of_none _ (by decide),
+    not_gram_of_none _ (by decide), not_gram_of_none _ (by decide), not_gram_of_none _ (by decide)⟩
+
 /-- Non-vacuity: a depth-5 condition mixing all four binary levels, both associativity-sensitive shapes
     (`a - (b - c)`-like right nesting that needs parentheses, left nesting that does not), `!`, `defined`
     in both spellings, a macro operand, an unknown identifier and operands up to 2^64-1 is well-formed,
@@ -314,5 +409,146 @@ example :
   simp only [ItemsWF, ItemWF, ChainWF, and_true, true_and]
   exact ⟨fun m hm => literalMacros_define m "A" _ 5 rfl hm,
          total_under_literal_macros _ (by decide)⟩
+
+/-! ## 5. include boundaries: one condition chain for all files
+
+`Model.CondFile` is the composed token-level model (`preprocess_command` + the token loop of
+`preprocess_included_file` + `FileLoader` + the C12 macro engine); it is compared with the real
+`rssl_preprocess::preprocess` on every run (`C11.raw`).  In C every file's conditional directives must balance
+by themselves.  The code has no such rule, and the model proves what happens instead. -/
+
+section IncludeBoundary
+open RsslVerif.Model.CondFile RsslVerif.Model.Macro RsslVerif.Lemmas.CondFile
+
+/-- Tie to the source for the composed model: the include-depth limit, that `#include` hands the includer's own
+    `ConditionChain` to `preprocess_included_file` (which never inspects it), that `find_single_macro` tests
+    for `defined` before the macro loop, that the recursive expansions run with `apply_defined = false`, and
+    that only `#if/#elif` lines use `apply_defined = true` — re-extracted from `/repo` on every run
+    (`tools/gens/c11.py` raises `ExtractError` when a shape changes). -/
+theorem composed_shape_agree :
+    maxIncludeDepth = 200 ∧ chainSharedByIncludes = true ∧ definedTestFirst = true ∧
+    innerCallsWithoutDefined = true ∧ definedOnlyInConditions = true := by
+  decide
+
+/-- **The chain is shared across `#include` (for every includer state).**  Whatever handler, fuel and state:
+    including a file whose whole text is `#endif` pops the level the *includer* opened; a file `#else` switches
+    the includer's if-section; a file `#ifdef X` returns with its level still open — in all three cases without
+    an error, the stack simply handed back.  So an `#if` *can* be closed by another file's `#endif`. -/
+theorem include_shares_chain (h : Handler) (fuel : Nat) (name : String) (st : FState)
+    (ho : st.once.contains name = false) :
+    (∀ c ch, h name = some hdrEndif → st.chain = c :: ch →
+      includeFile h (fuel + 1) name st = .ok { st with chain := ch }) ∧
+    (∀ c ch, h name = some hdrElse → st.chain = c :: ch →
+      includeFile h (fuel + 1) name st = .ok { st with chain := c.switch elseSwitchArg :: ch }) ∧
+    (∀ x, h name = some (hdrIfdef x) →
+      includeFile h (fuel + 1) name st = .ok { st with chain :=
+        (if RsslVerif.Model.CondFile.active st.chain then pushState (st.macros.any (fun m => m.name == x))
+         else .DisabledInner) :: st.chain }) :=
+  ⟨fun c ch hf hc => include_endif h fuel name st c ch hf ho hc,
+   fun c ch hf hc => include_else h fuel name st c ch hf ho hc,
+   fun x hf => include_ifdef h fuel name x st hf ho⟩
+
+/-- **Negation witness (end to end).**  `wHdrA` = `#ifndef A⏎2⏎` opens an if-section and never closes it,
+    `wMainA` = `#include "h.h"⏎1⏎#endif⏎` closes it: neither file is balanced (C rejects both: "unterminated
+    #ifndef", "#endif without #if"), yet the whole run is accepted and yields `2 1`.  Replayed on the real
+    preprocessor by `corpus/C11.txt` (known finding `unterminated-in-include accepted`). -/
+theorem if_closed_by_includers_endif_accepted :
+    fileBalanced wHdrA = false ∧ fileBalanced wMainA = false ∧
+    preprocessAll (fun n => if n = "main.rssl" then some wMainA else if n = "h.h" then some wHdrA else none)
+      [] "main.rssl" = .ok [⟨.int "2", true⟩, ⟨.endline, true⟩, ⟨.int "1", true⟩, ⟨.endline, true⟩] :=
+  RsslVerif.Lemmas.CondFile.witnessA
+
+/-- **Negation witness.**  `hdrElse` = `#else⏎` has an `#else` without an `#if` (C rejects); included from
+    inside the selected group of `wMainB` = `#ifndef A⏎1⏎#include "h.h"⏎2⏎#endif⏎` it ends that group: `2` is
+    silently dropped.  Known finding `unmatched-in-include accepted`. -/
+theorem else_of_other_file_accepted :
+    fileBalanced hdrElse = false ∧
+    preprocessAll (fun n => if n = "main.rssl" then some wMainB else if n = "h.h" then some hdrElse else none)
+      [] "main.rssl" = .ok [⟨.int "1", true⟩, ⟨.endline, true⟩] :=
+  RsslVerif.Lemmas.CondFile.witnessB
+
+end IncludeBoundary
+
+/-! ## 6. macro replacement inside conditions, on the composed model (C11 tables + C12 macro engine)
+
+`Model.CondFile.condD` = `trim_whitespace` + `apply_macros(.., apply_defined = true, ..)` (`topLoop`: the
+outermost loop with the `defined` test; arguments and bodies go through C12's `Macro.applyLoop`, exactly as
+the recursive calls of the Rust code pass `apply_defined = false`) + `condition_parser::parse`.  Ordinary
+text is flushed through C12's `Macro.applyMacros` unchanged (`Model.CondFile.flush`), so every C12 theorem
+about text applies verbatim to the composed model. -/
+
+section Composed
+open RsslVerif.Model.CondFile RsslVerif.Model.Macro RsslVerif.Lemmas.CondFile RsslVerif.Lemmas.CondMacro
+
+/-- **`defined` is protected from expansion, macros are expanded.**  For every macro list `ms` — object-like
+    or function-like macros, bodies of any shape — and every line of the form `a defined X r` /
+    `a defined ( X ) r` (blanks as the lexer leaves them; `a`, `r` runs of tokens that are neither macro
+    names nor `defined`): macro replacement turns the operator and its operand into the single token `1`/`0`
+    according to whether *some* macro is called `X`, and leaves everything else alone — the operand `X` is
+    never looked up as a macro, whatever it names.  By contrast the same `X` standing alone *is* replaced by
+    its body (third part, for object-like macros with identifier-free bodies). -/
+theorem defined_is_protected (ms : List Macro) (a r : List PTok)
+    (ha : Quiet (ms.map (⟨·, false⟩)) a) (hr : Quiet (ms.map (⟨·, false⟩)) r) :
+    (∀ (x : String) (w : PTok) (bs : List PTok) (ld lx : Bool), w.tok = .ws → Blanks bs →
+      applyMacrosD ms (a ++ ⟨.id "defined", ld⟩ :: (w :: bs ++ ⟨.id x, lx⟩ :: r)) =
+        .ok (a ++ definedTok (ms.any (fun m => m.name == x)) :: r)) ∧
+    (∀ (x : String) (bs1 bs2 bs3 : List PTok) (ld l1 l2 l3 : Bool), Blanks bs1 → Blanks bs2 → Blanks bs3 →
+      applyMacrosD ms (a ++ ⟨.id "defined", ld⟩ ::
+          (bs1 ++ ⟨.lparen, l1⟩ :: bs2 ++ ⟨.id x, l2⟩ :: bs3 ++ ⟨.rparen, l3⟩ :: r)) =
+        .ok (a ++ definedTok (ms.any (fun m => m.name == x)) :: r)) ∧
+    (∀ (pre post : List Macro) (m : Macro) (l : Bool), ms = pre ++ m :: post →
+      (∀ p ∈ pre, p.name ≠ m.name) → m.isFunction = false → plainBody m.body = true → m.name ≠ "defined" →
+      applyMacrosD ms (a ++ ⟨.id m.name, l⟩ :: r) = .ok (a ++ (m.body ++ r))) := by
+  have hany : ∀ x, isDefinedIn (ms.map (⟨·, false⟩)) x = ms.any (fun m => m.name == x) := by
+    intro x; simp [isDefinedIn, List.any_map, Function.comp_def]
+  refine ⟨?_, ?_, ?_⟩
+  · intro x w bs ld lx hw hb
+    rw [← hany]
+    exact applyMacrosD_res ms _ _ (Res.definedId a bs r r x ld lx w ha hw hb (Res.done r hr))
+  · intro x bs1 bs2 bs3 ld l1 l2 l3 h1 h2 h3
+    rw [← hany]
+    exact applyMacrosD_res ms _ _ (Res.definedParen a bs1 bs2 bs3 r r x ld l1 l2 l3 ha h1 h2 h3 (Res.done r hr))
+  · intro pre post m l hms hpre hobj hbody hn
+    refine applyMacrosD_res ms _ _ (Res.objMacro a r r (pre.map (⟨·, false⟩)) (post.map (⟨·, false⟩)) m l ha ?_ ?_
+      hobj hbody hn (Res.done r hr))
+    · rw [hms]; simp
+    · intro e he
+      obtain ⟨p, hp, rfl⟩ := List.mem_map.mp he
+      exact hpre p hp
+
+/-- **Main theorem (condition values, composed model).**  Let `ms` be any macro list and `R` an `#if/#elif`
+    line (token level, with blanks) such that, after `trim_whitespace`, (1) `R` is covered by `Res`: runs of
+    non-macro tokens, `defined X` / `defined ( X )` with arbitrary `X`, and object-like macros with
+    identifier-free bodies, and (2) without blanks `R` is the printing of a condition tree `e` that is
+    well-formed in the parser's view of the macro table (`cenv`: each macro used as an operand has a
+    one-literal body).  Then the composed model — C12's macro engine with the `defined` loop on top, then the
+    precedence-climbing parser — yields the truth of the reference value of `e` over unsigned 64-bit
+    integers: `defined` is evaluated on the unexpanded operand and macros are expanded before evaluation. -/
+theorem cond_eval_composed (ms : List Macro) (R R' : List PTok) (e : Expr)
+    (hres : Res (ms.map (⟨·, false⟩)) (trim R) R')
+    (hpr : condToks (trim R) = print 4 e)
+    (hwf : e.WellFormedIn (cenv (ms.map (⟨·, false⟩)))) :
+    condD ms R = .ok (evalU64 (cenv (ms.map (⟨·, false⟩))) e != 0) := by
+  rw [condD_eq_condValue ms R R' hres, hpr, cond_parse_eval _ e hwf]
+
+/-- Non-vacuity: `A == 5 && defined F && defined ( X ) && ! defined U` with `A` ↦ `5`, a function-like
+    `F(x)` ↦ `x + G` and `X` ↦ `Y` satisfies the hypotheses, and the value is `true`: `F` and `X` are
+    reported as defined without being expanded (expanding `F` without arguments or `X` to `Y` would change the
+    result), `A` is replaced by `5` before the comparison. -/
+example : condD exMacros exLine = .ok true := by
+  have ht : trim exLine = exLine := by decide
+  have h := cond_eval_composed exMacros exLine exOut
+    (.bin .land (.bin .land (.bin .land (.bin .eq (.name "A") (.lit 5 false)) (.defined "F" false))
+      (.defined "X" true)) (.not (.defined "U" false)))
+    (by rw [ht]; exact exRes) (by rw [ht]; decide)
+    ⟨by
+      intro x hx
+      have : x = "A" := by simpa [Expr.operandNames] using hx
+      subst this
+      exact Or.inr ⟨[.LiteralInt 5], 5, by decide, rfl⟩,
+     by decide⟩
+  rw [h]; decide
+
+end Composed
 
 end RsslVerif.Thm.C11
